@@ -152,7 +152,7 @@ METHODS = ['call', 'getblockcount', 'getbalance', 'getbestblockhash', 'getblockh
 INDEXERROR_CONVERSIONS = {('getblock', -5), ('getblockheader', -5), ('getblockheader_verbose', -5), ('getrawtransaction', -5), ('getrawtransaction_verbose', -5),
                           ('gettransaction', -5), ('getblockhash', -8)}
 REPLY_KINDS = (['result'] + ['err%d' % c for c in REGISTERED + UNREGISTERED] + ['err_nocode', 'err_string', 'err_number', 'err_with_result', 'missing_result', 'nonjson', 'empty', 'nohttp', 'html500',
-                                                                                  'huge_exponent', 'deep_nesting', 'not_utf8_like', 'json_scalar', 'utf8_cut'])
+                                                                                  'huge_exponent', 'deep_nesting', 'not_utf8_like', 'json_scalar', 'utf8_cut', 'err_empty_dict', 'err_zero', 'err_empty_string', 'err_false', 'err_empty_list'])
 
 
 def make_reply(kind, result_json):
@@ -168,6 +168,10 @@ def make_reply(kind, result_json):
         return Resp('{"result": null, "error": 17, "id": 1}')
     if kind == 'err_with_result':
         return Resp('{"result": %s, "error": {"code": -5, "message": "both"}, "id": 1}' % result_json)
+    if kind in ('err_empty_dict', 'err_zero', 'err_empty_string', 'err_false', 'err_empty_list'):
+        # an error member that is present and not null, but falsy in Python: still an error reply
+        v = {'err_empty_dict': '{}', 'err_zero': '0', 'err_empty_string': '""', 'err_false': 'false', 'err_empty_list': '[]'}[kind]
+        return Resp('{"result": %s, "error": %s, "id": 1}' % (result_json, v))
     if kind == 'missing_result':
         return Resp('{"error": null, "id": 1}')
     if kind == 'nonjson':
@@ -594,6 +598,52 @@ class Objects(Family):
         return kind, True
 
 
+class RepeatedCalls(Family):
+    """the same call made twice (and three times) on one proxy while the server's answer changes in between (a new block, a
+    reorganisation, a changed balance): every call issues its own request and returns what *its* reply says"""
+    name = 'same_call_changing_answers'
+    engine = 'E2'
+    nontrivial_rule = 'every case'
+
+    def cases(self, shard, tier):
+        for name in ('getblockhash', 'getblockcount', 'getbestblockhash', 'getbalance', 'getreceivedbyaddress', 'getrawmempool', 'getblockheader', 'getnewaddress'):
+            for order in ((0, 1), (1, 0), (0, 1, 0), (0, 0, 1)):
+                yield (name, list(order))
+
+    def check(self, case):
+        from bitcoin.wallet import CBitcoinAddress
+        name, order = case
+        p, c = new_proxy()
+        q = json.dumps
+        ha, hb = bytes(range(32)), bytes(range(32, 64))
+        hdrs = [W.encode_header(c01.header_from({'nonce': 1})), W.encode_header(c01.header_from({'nonce': 2}))]
+        addrs = [B58.check_encode(0, bytes(range(20))), B58.check_encode(0, bytes(range(1, 21)))]
+        table = {
+            'getblockhash': (lambda: p.getblockhash(7), [q(core_hex(ha)), q(core_hex(hb))], [ha, hb]),
+            'getblockcount': (lambda: p.getblockcount(), ['5', '6'], [5, 6]),
+            'getbestblockhash': (lambda: p.getbestblockhash(), [q(core_hex(ha)), q(core_hex(hb))], [ha, hb]),
+            'getbalance': (lambda: p.getbalance(), ['1.00000001', '2.5'], [100000001, 250000000]),
+            'getreceivedbyaddress': (lambda: p.getreceivedbyaddress(CBitcoinAddress(ADDR)), ['0.1', '0.3'], [10000000, 30000000]),
+            'getrawmempool': (lambda: p.getrawmempool(), [q([core_hex(ha)]), q([core_hex(hb), core_hex(ha)])], [[ha], [hb, ha]]),
+            'getblockheader': (lambda: p.getblockheader(ha).serialize(), [q(hdrs[0].hex()), q(hdrs[1].hex())], hdrs),
+            'getnewaddress': (lambda: str(p.getnewaddress()), [q(addrs[0]), q(addrs[1])], addrs),
+        }
+        fn, replies, wants = table[name]
+        for k, i in enumerate(order):
+            c.replies.append(reply_result(replies[i]))
+            nreq = len(c.requests)
+            got = fn()
+            if len(c.requests) != nreq + 1:
+                raise Viol('%s, call %d of the answer sequence %r: %d requests were issued' % (name, k + 1, order, len(c.requests) - nreq), 1, len(c.requests) - nreq)
+            if isinstance(got, (list, tuple)):
+                got = [bytes(x) for x in got]
+            elif isinstance(got, (bytes, bytearray)):
+                got = bytes(got)
+            if got != wants[i]:
+                raise Viol('%s, call %d of the answer sequence %r does not return what its own reply says' % (name, k + 1, order), wants[i], got)
+        return name, True
+
+
 def selftest(run):
     if core_hex(bytes(range(32))) != '1f1e1d1c1b1a191817161514131211100f0e0d0c0b0a09080706050403020100':
         raise HarnessError('core_hex')
@@ -607,4 +657,4 @@ def selftest(run):
 
 
 def families(tier):
-    return [Histories(), AmountsReceived(), AmountsSent(), Hashes(), Objects()]
+    return [Histories(), AmountsReceived(), AmountsSent(), Hashes(), Objects(), RepeatedCalls()]
